@@ -53,7 +53,7 @@ def run(ctx):
             if sw.term.kind == 'switch' and sw.term.j.get('dty') == 'bool' and any(s[0] == 'call' and s[2] == p0.idx for s in sources(an, sw.term.discr)):
                 arms = dict(sw.term.switch_arms())
                 reach = an.reach([arms['true']], ('normal',), avoid=[arms['false']])
-                errs = [bb for bb, cls, det in an.ret_assignments() if cls == 'err' and bb in reach]
+                errs = [bb for bb, cls, det in an.ret_assignments() if cls in ('err', 'residual') and bb in reach]          # `Err(..)` or `helper()?`
                 oks = [bb for bb, cls, det in an.ret_assignments() if cls in ('ok', 'other', 'unit') and bb in reach]
                 hit_ia = [x for x in ia if x.idx in reach]
                 ctx.ob('R15.1', '%s: a poisoned wrapper is rejected' % tag, bool(errs) and not oks and not hit_ia, ctx.where(b, sw.term.line),
